@@ -72,7 +72,7 @@ PROPS["C03"] = dict(
     driver="c03", builds=["rel", "dbg"], level="exploration",
     rule="E-input: (1) every bit sequence of length <= N as a run list; (2) every run list of <= 2 runs (thorough: <= 3) over (gap, length) magnitudes from 1 to 2^63 (1..22 code units), first gap also 0, "
          "trailing zeros in {0, 1, 2^61}, total length capped at usize::MAX; (3) block-shape families: k tiny runs + one big run + k tiny runs (1, 8, 9, many blocks; blocks closed early) and a first block without unset bits "
-         "followed by 2..20 more blocks, k up to 600 with long tails; (4) lengths at the documented maximum: usize::MAX - slack for slack 0..40 with 1..20 blocks and a final run or trailing zeros up to the very end. "
+         "followed by 2..20 more blocks, k up to 600 with long tails; (4) every fill level 0..66 of a block (tiny runs) in front of the widest runs the encoding allows (gap 2^63, length 2^60+1), then two more runs; (5) lengths at the documented maximum: usize::MAX - slack for slack 0..40 with 1..20 blocks and a final run or trailing zeros up to the very end. "
          "Built run by run; per-bit, split-run, set_len-before-every-run and copy_bit_vec routes must answer identically. All ten operations at run edges, block-sample edges (read from the "
          "file by the independent codec) +-1, a uniform grid over the length, the midpoints of gaps and runs, and A(.); run_iter must yield exactly the maximal runs with running offset/rank/rank_zero. Non-trivial = at least one run; distinct by hashed case key.",
     bounds={"quick": "N=12; <=2 runs over 8 magnitudes x 3 tails; 450 block shapes", "thorough": "N=13; <=2 runs over 19 magnitudes and <=3 runs over 10 magnitudes x 3 tails; 1500 block shapes"},
@@ -107,7 +107,7 @@ PROPS["C06"] = dict(
     rule="E-input: a catalogue of values of every Serialize type (u64, usize, pairs, vectors of them, byte vectors of every length 0..17, ASCII and multi-byte strings, Option and Option<Option<>> of several types incl. Option<SparseVector|RLVector|WaveletMatrix>, "
          "RawVector, IntVector at many widths, BitVector with each of the 8 support subsets, SparseVector (sets and multisets), RLVector with 1/8/9/many blocks, WMCore, WaveletMatrix, RankSupport, SelectSupport) plus every "
          "BitVector / SparseVector / RLVector of <= N bits. For each x: bytes written == 8*size_in_elements == size_in_bytes; load consumes exactly those bytes, equals x, re-serializes identically and answers the query sets of C01-C04; "
-         "also through 1/3/7/8/9-byte short-read readers and 1/3/7-byte short-write sinks; size_by_params for Raw/IntVector over boundary (capacity, width) sets. Every ordered pair (thorough: every triple over 24 values) "
+         "also through 1/3/7/8/9-byte short-read readers and 1/3/7-byte short-write sinks; size_by_params for Raw/IntVector over boundary (capacity, width) sets; every wavelet matrix and core of small scopes (levels whose supports differ in size); values of many megabytes around the piece sizes a loader might use (2^17+3 and 2^20+3 elements, 2^16+1 and 2^20+1 pairs, 2^20+5 and 2^23+1 bytes, 2^21 37-bit items, a bitvector of 2^26+70 bits with all supports). Every ordered pair (thorough: every triple over 24 values) "
          "written back to back loads in sequence with the reader ending exactly at the end. Non-trivial = more than one element; distinct by hashed descriptor / descriptor tuple.",
     bounds={"quick": "158-value catalogue, N=10, 24 964 pairs", "thorough": "extended catalogue (all widths, all byte lengths, multi-superblock vectors), N=18, all pairs, 46 656 triples"},
     assumptions=[HOOK_ASSUMPTION, MODEL_ASSUMPTION],
@@ -136,7 +136,7 @@ PROPS["C16"] = dict(
     rule="E-hist: breadth-first search over call sequences on the real builders. SparseBuilder: 60 parameter sets (universe in {0,1,2,5,8,70} x capacity 0..4 x set/multiset) plus huge universes (2^63, usize::MAX-1, usize::MAX) x capacity 1..3, where the constructor itself must succeed; calls try_set(i), set(i) (panic caught) for i around next_index, "
          "the universe end and usize::MAX, extend with fully valid lists, lists whose first element is invalid and lists that become invalid after a valid prefix (the builder must then be exactly the builder that accepted some prefix of the valid part), each also through an iterator without size information. RLBuilder: try_set(start, len) with start below/at/above the current length and 2^62, len in {0, 1, 3, 2^20, "
          "the largest that fits, one more than fits, usize::MAX}, set_len below/at/above the length. After every call: accepted/refused exactly as the reference says; a refused call leaves every observable (len, next_index, counts, fullness, and the vector a clone converts to) unchanged; "
-         "len/next_index/is_full/is_empty/count_ones/count_zeros exact; conversion of a clone succeeds iff allowed and yields a vector that answers get/rank/select/predecessor/successor at every index like the accepted positions / merged runs (also after completing a clone with the smallest admissible indices). "
+         "len/next_index/is_full/is_empty/count_ones/count_zeros exact; conversion of a clone succeeds iff allowed and yields a vector that answers get/rank/select/predecessor/successor (sparse: at every index; run-length: at the edges of the first and last runs and on a grid) like the accepted positions / merged runs; one long run-length history (640 runs, about twenty blocks) is observed as well (also after completing a clone with the smallest admissible indices). "
          "States deduplicated on the builder's Debug rendering; distinct = distinct renderings per BFS.",
     bounds={"quick": "depth 5", "thorough": "depth 7"},
     assumptions=[HOOK_ASSUMPTION, "after an extend that panics on an invalid element, how many of the valid elements before it were accepted is not specified; any prefix is admitted"],
@@ -166,8 +166,8 @@ MANIFEST_TEXT["C14"] = dict(engine="E-fault", design_ref="DESIGN.md §4 C14",
 PROPS["C12"] = dict(
     driver="c12", builds=["rel", "dbg"], level="model_checking",
     rule="E-hist: every push history is replayed on a fresh writer over a real file, ended, and the file compared byte for byte with the serialization of the equivalent in-memory vector. IntVectorWriter: widths x buffer sizes in items "
-         "{0,1,2,3,5,8,64,65} (and the default buffer) x every item count up to 3 buffers + 2 x value stream {pattern, all ones incl. bits above the width} x {push, extend<u8|u16|u32|u64|usize>} x ending {close, close twice, drop}. "
-         "RawVectorWriter: every push history up to depth d over a 12-letter alphabet (push_bit 0/1, push_int at widths 0,1,7,31,32,33,63,64) x buffer sizes {0,1,64,65,128,192} x endings, with and without a parent header, plus long prefixes that "
+         "{0,1,2,3,5,8,64,65} (and the default buffer) x every item count up to 3 buffers + 2 x value stream {pattern, all ones incl. bits above the width, alternating 0/1, thorough: all zeros} x {push, extend<u8|u16|u32|u64|usize>} x ending {close, close twice, drop}. "
+         "RawVectorWriter: every push history up to depth d over a 12-letter alphabet (push_bit 0/1, push_int at widths 0,1,7,31,32,33,63,64) and, to depth 3/5, over a 7-letter alphabet of small values (zero bits where an item straddles the buffer limit) x buffer sizes {0,1,64,65,128,192} x endings, with and without a parent header, plus long prefixes that "
          "fill the buffer exactly. Every writer is opened on a path that already holds a longer file of other bytes (4 KiB or 64 KiB, derived from the case). After every push len(); is_open before/after; second close Ok and bytes unchanged; IntVector files load back equal. A state is a history; distinct = histories with at least one bit pushed.",
     bounds={"quick": "10 widths, depth 4: ~310 000 histories", "thorough": "64 widths, depth 5: ~3.6 M histories"},
     require_counters={},
@@ -182,7 +182,7 @@ PROPS["C20"] = dict(
     special="loom", driver="c20", builds=["loom", "rel"], level="model_checking",
     rule="E-sched: loom (DPOR over the C11 memory model, no preemption bound) explores every interleaving of T threads x K calls of the real serialize::temp_file_name, whose counter is a loom atomic in this build (hook H2; the use "
          "site - fetch_add and the name formatting - is the shared line users run). Configurations (T,K): (2,1) (2,2) (2,3) (3,1) (3,2), thorough adds (3,3) (4,1) (4,2); shared and per-thread name parts; name parts incl. dotted, empty, "
-         "spaced and 250 / 300-byte ones. Oracle per execution: all returned paths pairwise distinct and each file name contains the caller's name part. distinct_nontrivial = distinct assignments of counter values to calls observed. "
+         "spaced and 250 / 300-byte ones (sequential check: also parts with directory components). Oracle per execution: all returned paths pairwise distinct and each file name contains the caller's name part. distinct_nontrivial = distinct assignments of counter values to calls observed. "
          "One loom configuration runs with files already present under the names the first counter values produce (the file system as an environment answer). "
          "Beside it, on the normal build: deterministic sequential checks for 13 name parts (incl. lengths 100..300 bytes) and across 12 name parts that extend each other by digits and separators (no path twice over 1 800 calls); a deterministic history (threads that run one after the other, pre-existing files under the next names, 140 000 + 70 000 calls from single threads, i.e. beyond 2^16 and 2^17); "
          "and a free-running run (8 OS threads x 20 000 calls) that is SAMPLING and decides nothing, but a duplicate it observes is a real counterexample.",
@@ -198,11 +198,11 @@ MANIFEST_TEXT["C20"] = dict(engine="E-sched", design_ref="DESIGN.md §4 C20",
 PROPS["C18"] = dict(
     driver="c18", builds=["rel", "dbg"], level="model_checking",
     rule="E-hist: every sequence of Map(file, ReadOnly|Mutable) / Drop(handle) / Write(handle, first|mid|last element, value) / Read(handle) up to depth d with at most 3 live maps over files of 0, 8, 4088, 4096, 4104, 8192, 65536 and 1 MiB+8 bytes, "
-         "files of 4, 12 and 4100 bytes (not multiples of 8) and a missing file; each history is executed from scratch on the real MemoryMap. Oracle after every action from /proc/self/maps: a successful map is 8-aligned, its whole page-rounded range is mapped to that file, readable "
+         "files of 4, 12 and 4100 bytes (not multiples of 8), a symbolic link to a 4096-byte file and a missing file; each history is executed from scratch on the real MemoryMap. Oracle after every action from /proc/self/maps: a successful map is 8-aligned, its whole page-rounded range is mapped to that file, readable "
          "(writable if mutable), as_ref() equals the file content and len() = size/8; missing / non-multiple-of-8 files give Err and leave nothing mapped; an empty file gives Err or a valid empty map; after Drop no page of the dropped range is still mapped to the file and other live maps are intact; "
          "every map sits between two PROT_NONE guard pages placed by the harness (one is placed first so that the library's mapping lands directly below it) and both guards must survive the drop, so an unmap that is one page too long or too short is seen deterministically; with no live "
          "handle no test file is mapped; the process never holds more open descriptors to a test file than it has live maps of it (so a dropped map keeps nothing of the file open); a write is visible through every live map of the file and in the file after the map is dropped. A state is a history; all histories are distinct by construction.",
-    bounds={"quick": "depth 1..3, 12 files: 19 604 histories", "thorough": "depth 1..4 over 12 files + depth 5 over 7 files: 1 752 170 histories"},
+    bounds={"quick": "depth 1..3, 13 files: 24 702 histories", "thorough": "depth 1..4 over 12 files + depth 5 over 7 files: 1 752 170 histories"},
     require_counters={},
     timeout={"quick": 900, "thorough": 4 * 3600},
     assumptions=[HOOK_ASSUMPTION, "the address space is observed through /proc/self/maps (Linux)", "the only OS refusal provoked is the zero-length mapping"],
@@ -230,7 +230,7 @@ MANIFEST_TEXT["C09"] = dict(engine="E-input", design_ref="DESIGN.md §4 C09",
 PROPS["C10"] = dict(
     driver="c10", builds=["rel", "dbg"], level="model_checking",
     rule="E-hist: the complete call tree over {next, nth(0), nth(1), nth(2), nth(MAX)} and, for double-ended iterators, {next_back, nth_back(0|1|2|MAX)} up to depth d; every branch continues on a clone of the iterator (so clone() is exercised at "
-         "every node); after every call the returned item and the exact size hint are compared with a VecDeque reference; once an iterator is exhausted every call is tried once more and must return None. Iterators x starting points: "
+         "every node); after every call the returned item and the size hint (exact for exact-size iterators, any valid bounds otherwise) are compared with a VecDeque reference, and count() and last() of clones of the iterator in that state with what is left; once an iterator is exhausted every call is tried once more and must return None. Iterators x starting points: "
          "BitVector / SparseVector / RLVector iter, one_iter, zero_iter, run_iter, select_iter(r), select_zero_iter(r), predecessor(v), successor(v) for EVERY r and v; multiset sparse vectors; IntVector iter / into_iter; WaveletMatrix iter, into_iter, "
          "value_iter(v), select_iter(r, v), predecessor(i, v), successor(i, v) for every argument. Parents: every bit sequence of <= N bits as all three types, word-boundary and multi-block run-length parents (a block ending in padding), LOADED copies (serialize; load) of multi-block parents incl. a 20-block run-length vector whose block starts are spread over several index buckets (shallower trees: depth 4, 3 starting points), "
          "every multiset over universes <= U with <= K values, IntVectors over {0, max} at widths 1/7/64, every vector of the WM scopes. A state is a history (no merging: iterators keep private cursors); all histories are distinct by construction.",
@@ -246,7 +246,7 @@ PROPS["C15"] = dict(
     driver="c15", builds=["rel", "dbg"], level="exploration",
     rule="E-input: every non-decreasing value list of <= K values over every universe <= U (incl. overfull lists with more values than elements); duplicates with multiplicities {1,2,5,17} at bucket boundaries 2^w*k-1 / 2^w*k / 0 / n-1 "
          "for universes 64..2^20 (the low width the parameter rule picks) and for universes 2^63, usize::MAX-1, usize::MAX with values at both ends; multisets with 100 000 (thorough 300 000) copies of one value before / after / between other values and behind thousands of empty buckets (long select superblocks in the upper part), queried at the structural edges; SparseVector::try_from_iter over EVERY sequence (sorted or not) of length <= L over 0..A. Checked: len, count_ones, is_multiset, select / select_iter at every rank and A(.), "
-         "get, rank, successor (first occurrence) and predecessor (last occurrence) as full iterators at every position and A(.), one_iter and the bit iterator forward, reversed and at every forward/backward split point; try_from_iter accepts exactly "
+         "get, rank, successor (first occurrence) and predecessor (last occurrence) as full iterators at every position and A(.), one_iter and the bit iterator forward, reversed and at every forward/backward split point (items taken from the front first, and from the back first); try_from_iter accepts exactly "
          "the non-decreasing sequences, sizes the universe to last+1 and equals the multiset builder's vector. Zero-side queries are not checked (documented as not meaningful for multisets). Non-trivial = has duplicates or is a try_from_iter sequence.",
     bounds={"quick": "U=7, K=8; L=5 over 0..6 (9 331 sequences)", "thorough": "U=9, K=10; L=7 over 0..8"},
     require_counters={"quick": {"overfull_cases": 10, "cases_with_duplicates": 100}, "thorough": {"overfull_cases": 10, "cases_with_duplicates": 100}},
@@ -263,7 +263,7 @@ PROPS["C11"] = dict(
          "EVERY conversion chain of 1..3 conversions: 42 chains by From (consecutive types differ) and 117 chains by copy_bit_vec (any type to any type incl. itself). The result must have the reference length and set positions, be == the structure "
          "the target type's own builder produces from the same bits, and serialize to identical bytes. Builder decompositions: every run list of <= 3 runs of length <= R (gaps 0/1/2) x EVERY composition of each run into adjacent try_set pieces "
          "(down to bit at a time) x {no set_len, set_len(current length) before every run, set_len(next start) before every run, set_len(current length) before every PIECE, two refused try_set calls (an overflowing run behind a gap, a run before the current length) before every piece} x tail {0, 2}: the RLVector must be the canonical one. "
-         "Huge universes: SparseVector <-> RLVector chains (From and copy_bit_vec) over lengths up to usize::MAX with runs at 2^60-scale positions and runs ending exactly at usize::MAX. Non-trivial = has set and unset bits / any decomposition.",
+         "Huge universes (incl. k = 0..34 isolated bits, then a bit beyond 2^63: the widest gap code at every fill level of a block): SparseVector <-> RLVector chains (From and copy_bit_vec) over lengths up to usize::MAX with runs at 2^60-scale positions and runs ending exactly at usize::MAX. Non-trivial = has set and unset bits / any decomposition.",
     bounds={"quick": "N=12, R=5", "thorough": "N=18, R=6"},
     assumptions=[HOOK_ASSUMPTION, MODEL_ASSUMPTION, "BitVector construction routes from a raw vector / bool iterator are compared in C01"],
 )
@@ -277,7 +277,7 @@ PROPS["C13"] = dict(
     rule="E-input + E-fault: real files made of every single mappable catalogue value (behind 0/1/3 padding elements, both mapping modes), every ordered pair, and every triple over a sub-catalogue "
          "(Vec<u64|usize|(u64,u64)>, byte vectors of many lengths, ASCII and multi-byte strings, Option of those incl. None, RawVector, IntVector at many widths, Option<IntVector>). For the intact file and for EVERY 8-byte truncation: "
          "a view (MappedSlice / MappedBytes / MappedStr / MappedOption / RawVectorMapper / IntVectorMapper) at each structure start that lies entirely inside the file exposes exactly the content load would give "
-         "(all bit/int/word/get/iter accessors), map_offset() is the start and map_offset()+map_len() is the next structure's offset; a view of a structure that is cut short or starts beyond the end is refused with Err. "
+         "(all bit/word/get/iter accessors; integers of widths 0,1,7,13,32,63,64 at every bit offset of the first 200 bits), map_offset() is the start and map_offset()+map_len() is the next structure's offset; a view of a structure that is cut short or starts beyond the end is refused with Err. "
          "For the intact file every view type at offsets {len, len+1, 2len, 2^63, MAX-1, MAX} is refused with Err (no panic). Distinct = distinct files.",
     bounds={"quick": "58-value mappable catalogue: 348 single-value files, 3 364 pairs, ~1 700 triples; 35 000 cut structures", "thorough": "extended catalogue (all widths, all byte lengths), all pairs, ~27 000 triples"},
     require_counters={"quick": {"cut_structures": 1000}, "thorough": {"cut_structures": 1000}},
@@ -294,7 +294,7 @@ PROPS["C19"] = dict(
          "enable_rank, enable_select, enable_select_zero, enable_pred_succ and serialize;load is explored to a fixpoint (all 16 states, 80 transitions) on the real BitVector. In every state: supports_* report exactly the subset (so loading reports "
          "exactly what was written), the value == a freshly built vector with the same subset enabled and serializes identically, the bits are unchanged, every enabled query equals the reference; enabling twice leaves the value equal; every path that "
          "reaches the full subset equals the fully enabled original. Composites: SparseVector files at every admissible low width and WaveletMatrix / WMCore files are written by the independent codec with EVERY subset of the support structures in the embedded "
-         "bitvectors (none, each one, all), and must load - also wrapped as Option<...> in front of a sentinel - and answer all queries; with no supports or all supports they must equal the built value. skip_option over [optional, sentinel] for every catalogue value through readers of chunk size 1/3/7/8/9/4095/unbounded must leave the reader exactly at the sentinel; "
+         "bitvectors (none, each one, all), and must load - also wrapped as Option<...> in front of a sentinel - and answer all queries; with no supports or all supports they must equal the built value. the memory-mapped counterpart: a serialized bitvector with each of the 8 support subsets is walked view by view (raw vector, three MappedOption views whose inner view may cover less than the optional) and must end exactly at the end of the file with the right presence flags; skip_option over [optional, sentinel] for every catalogue value through readers of chunk size 1/3/7/8/9/4095/unbounded must leave the reader exactly at the sentinel; "
          "absent_option writes absent_option_size() elements. Distinct = states + files + (value, chunk) pairs.",
     bounds={"quick": "N=9 (1023+7 bitvectors x 16 states), sparse files for all sets <= 8 bits x all widths, WM scopes (1,6) (2,4) (3,3) (4,2)", "thorough": "N=16, sparse <= 14 bits, WM scopes (1,8) (2,5) (3,4) (4,3), extended catalogue"},
     require_counters={"quick": {"sparse_files_at_the_library_width": 10}, "thorough": {"sparse_files_at_the_library_width": 10}},
@@ -326,7 +326,7 @@ C08_DRIVERS = ["c08x", "c01", "c02", "c03", "c04", "c05", "c09", "c10", "c13", "
 PROPS["C08"] = dict(
     monitor=True, drivers=C08_DRIVERS, builds=["rel", "native", "dbg"], extra_builds={"thorough": ["asan"]}, level="exploration",
     rule="(1) Own space (driver c08x): safe call sequences whose ANSWERS no property specifies but which must stay inside the buffers - conversions from every small multiset sparse vector (incl. overfull) to the other types followed by every query "
-         "with in-range and extreme arguments, zero-side queries on multisets, every query on bitvectors with each of the 8 support subsets (built and loaded), RawVector / IntVector accessors and setters at A(len), RankSupport::rank and SelectSupport::select (safe public functions that take the parent as an argument) with their own and with FOREIGN parents (every pair of bit sequences of <= 4/6 bits plus word-, block- and superblock-sized shapes) at arguments past either end, and EVERY mapped view type at EVERY "
+         "with in-range and extreme arguments, zero-side queries on multisets, every query on bitvectors with each of the 8 support subsets (built and loaded), RawVector / IntVector accessors and setters at A(len), RankSupport::rank and SelectSupport::select (safe public functions that take the parent as an argument) with their own and with FOREIGN parents (every pair of bit sequences of <= 4/6 bits plus word-, block- and superblock-sized shapes) at arguments past either end, loads of library-written structures of 1..16 MiB (Vec<u64>, pairs, IntVector, BitVector with supports) that are then pushed to and indexed at both ends, and EVERY mapped view type at EVERY "
          "offset of library-written files (singles and pairs of catalogue values): a view is refused or lies inside the map. (2) Monitor over E-input / E-hist: the drivers of C01-C06, C09, C10, C13, C15 and C19 (structures built through the safe API AND their loaded copies; every query with the extreme-argument set A(.); every iterator call history; "
          "mapped views at good and bad offsets) are re-run in monitor mode with the bounds monitor H1 compiled into the library: every unchecked access on the query paths (low_set_unchecked, high_set_unchecked, bits::select and its two table reads, "
          "RawVector / RawVectorMapper::word_unchecked, RankSupport::rank_unchecked) first checks its index and panics with the marker VERIF-OOB. Verdict = a VERIF-OOB panic or a reproducible fatal signal inside a library call, in builds with and without "
